@@ -39,6 +39,10 @@ pub struct SupplyTrace {
     /// the metadata transport preserves time stamps: every delivered file has one fixed mtime
     #[serde(default)]
     pub fixed_mtime: bool,
+    /// every delivery of a file carries an older time stamp than the delivery before it (a directory restored
+    /// from an older archive, `touch -d`, a clock that was set back): time stamps are not an input of verification
+    #[serde(default)]
+    pub mtime_backwards: bool,
     /// how the caller names the link directory: 0 absolute, 1 relative ("../links"),
     /// 2 through a symbolic link and "..": <scratch>/stage/../links with stage -> real/stage, so that
     /// the kernel resolves it to <scratch>/real/links while <scratch>/links is an unrelated (decoy) directory
@@ -176,7 +180,7 @@ pub fn run_supply(t: &SupplyTrace, scratch: &Scratch) -> SupplyOutcome {
             (scratch.links(), scratch.links())
         };
         let decoy = scratch.links();
-        let m = materialise(&stored, &real_links, arrival, fired.clone(), t.fixed_mtime, if t.link_dir_style == 2 { Some(decoy.as_path()) } else { None }, t.via_symlink).expect("materialise");
+        let m = materialise(&stored, &real_links, arrival, fired.clone(), if t.mtime_backwards { 2 } else if t.fixed_mtime { 1 } else { 0 }, if t.link_dir_style == 2 { Some(decoy.as_path()) } else { None }, t.via_symlink).expect("materialise");
         let links = passed;
         let work = scratch.work();
         let (short, eintr) = match t.read_faults {
